@@ -822,11 +822,15 @@ def shutdown_loop(loop, point=None):
         to_cancel = [t for t in loop.ordered_tasks() if not t.done()]
         for t in to_cancel:
             t.cancel()
-        if to_cancel:
-            loop.run_until_complete(asyncio.gather(*to_cancel, return_exceptions=True))
+
+        async def drain():
+            # the three steps of asyncio.Runner.close(), in one run of the loop
+            if to_cancel:
+                await asyncio.gather(*to_cancel, return_exceptions=True)
+            await loop.shutdown_asyncgens()
+            await loop.shutdown_default_executor()
+        loop.run_until_complete(drain())
         p('drained')
-        loop.run_until_complete(loop.shutdown_asyncgens())
-        loop.run_until_complete(loop.shutdown_default_executor())
     finally:
         p('close')
         asyncio.set_event_loop(None)
